@@ -68,9 +68,11 @@ def enc_res(desc, it):
 def gen_dm(rng):
     c = gen.dm_case(rng, nmax=5, mmax=4, nmin=1, mmin=1, modes=("dyadic", "int"), structure=False, big=0.0)
     m = len(c["weights"])
+    # an integer-valued criterion may be typed int64 or float64
+    dts = [(rng.choice([0, 1]) if all(float(r[j]).is_integer() for r in c["matrix"]) else 1) for j in range(m)]
     return {"t": "dm", "matrix": c["matrix"], "objectives": c["objectives"],
             "weights": gen.weights(rng, m, "dyadic"), "alternatives": c["alternatives"], "criteria": c["criteria"],
-            "dtypes": [1] * m}
+            "dtypes": dts}
 
 
 def gen_res(rng, kernel=None):
@@ -100,15 +102,27 @@ def perturb(rng, desc, rtol, atol):
         return float(Fraction(b) + delta)
     if t == "dm":
         n, m = len(d["alternatives"]), len(d["criteria"])
-        what = rng.choice(["weights", "matrix", "objectives", "alternatives", "criteria", "shape_rows", "shape_cols"])
+        what = rng.choice(["weights", "matrix", "objectives", "alternatives", "criteria", "shape_rows", "shape_cols",
+                           "dtypes", "dtypes"])
+        if what == "dtypes":
+            # the same values held in the other dtype (only possible for an integer-valued criterion)
+            ok = [j for j in range(m) if all(float(r[j]).is_integer() for r in d["matrix"])]
+            if ok:
+                j = rng.choice(ok)
+                d["dtypes"][j] = 1 - d["dtypes"][j]
+                return d, "one:dtypes"
+            what = "weights"
+        if what == "matrix":
+            fl = [j for j in range(m) if d["dtypes"][j] == 1]     # a fractional change needs a float-typed criterion
+            if fl:
+                i, j = rng.randrange(n), rng.choice(fl)
+                d["matrix"][i][j] = bump(d["matrix"][i][j])
+                return d, f"one:matrix:{how}"
+            what = "weights"
         if what == "weights":
             j = rng.randrange(m)
             d["weights"][j] = bump(d["weights"][j])
             return d, f"one:weights:{how}"
-        if what == "matrix":
-            i, j = rng.randrange(n), rng.randrange(m)
-            d["matrix"][i][j] = bump(d["matrix"][i][j])
-            return d, f"one:matrix:{how}"
         if what == "objectives":
             j = rng.randrange(m)
             d["objectives"][j] = -d["objectives"][j]
@@ -309,7 +323,13 @@ def check(ctx, case, o, mab, mba):
         member = rel.split(":")[1]
         above = not rel.endswith(":below") and not rel.endswith(":at")
         names = [MEMBER_NAMES[k] for k in ab["diff"][1]]
-        if above:
+        if member == "dtypes":
+            # ==, != and equals always look at the dtypes; diff names them when asked to (check_dtypes)
+            want_names = ["dtypes"] if case["check_dtypes"] else []
+            if ab["equals"] or ab["eq"] or names != want_names:
+                ctx.oracle_fail(case, {"oracle": f"only the dtype of a criterion differs: equals={ab['equals']}, "
+                                                 f"=={ab['eq']}, diff(check_dtypes={case['check_dtypes']}) names {names}"})
+        elif above:
             if ab["equals"] or names != [member]:
                 ctx.oracle_fail(case, {"oracle": f"exactly {member} was changed beyond tolerance but diff names {names} "
                                                  f"(equals={ab['equals']})"})
